@@ -53,7 +53,7 @@ def floors(tier):
     return {'evaluations': 20000, 'distinct_nontrivial': 3000, 'strict_trees_checked': 8000,
             'tolerant_trees_checked': 15000, 'make_node_span_in_input': 50000, 'nodes_checked': 100000,
             'histkeys:adjacent_pair': 25, 'hist:workload:custom-docs': 500,
-            'new_style_verbatim_env_nodes': 100}
+            'new_style_verbatim_env_nodes': 100, 'hist:workload:configured-start-state': 1000}
 
 
 def setup(rec):
@@ -301,7 +301,7 @@ def check_case(case, rec):
     for mode in modes:
         strict = (mode == 'strict')
         try:
-            nl = parse(s, ctx=ctx, tolerant=not strict)
+            nl = parse(s, ctx=ctx, tolerant=not strict, psopts=case.get('psopts'))
         except LatexWalkerParseError:
             if strict:
                 rec.monitor('strict_rejected')
@@ -361,6 +361,13 @@ def run_shard(desc, rec):
             if i % 400 == 0:
                 rec.sample(s)
             check_case({'s': s}, rec)
+        # the walker started from a non-default parsing state (the comment / escape character configurations are left
+        # to C11 and C17: the interior oracle reads comments and control sequences with the default characters)
+        cfgs = [c for c in work.PS_CONFIGS if 'comment_start' not in c and 'macro_escape_char' not in c]
+        for i, s in enumerate(work.soups(rng, max(300, desc['count'] // 3))):
+            rec.case()
+            rec.hist('workload', 'configured-start-state')
+            check_case({'s': s, 'psopts': cfgs[i % len(cfgs)]}, rec)
     else:
         src = work.DocSource(rng, desc['vocab'], depth=desc['depth'], cover_base=desc.get('cb', 0))
         for i in range(desc['count']):
